@@ -1,7 +1,7 @@
 (* C08: proofs.  Part A: comparison of outcomes and the refutation witnesses (vm_compute).
    Part B (below): the evaluator is right on every properly built tree. *)
 From Coq Require Import List ZArith Bool Arith Lia Permutation.
-From Krrood Require Import Eql.RuleSpec Eql.RuleEval Eql.RuleBuild Eql.RulePure.
+From Krrood Require Import Eql.RuleSpec Eql.RuleEval Eql.RuleBuild Eql.RulePure Eql.RuleEvalProofs Eql.RuleSpecProofs.
 Import ListNotations.
 
 (* ---- comparing a model outcome with the Spec's ---- *)
@@ -75,3 +75,249 @@ Proof.
   split; (split; [vm_compute; reflexivity|]; split; [vm_compute; reflexivity|]; split; [vm_compute; tauto|];
           vm_compute; intuition congruence).
 Qed.
+
+(* ---- Part B: assembling the theorem on the fragment ---- *)
+Lemma list_eqb_eq {A} (eqb : A -> A -> bool) (Heq : forall x y, eqb x y = true -> x = y) :
+  forall a b, list_eqb eqb a b = true -> a = b.
+Proof.
+  induction a as [|x a IH]; intros [|y b]; simpl; intros H; try discriminate; [reflexivity|].
+  apply andb_prop in H. destruct H as [H1 H2]. f_equal; [apply Heq; exact H1|apply IH; exact H2].
+Qed.
+Lemma atom_eqb_eq a b : atom_eqb a b = true -> a = b.
+Proof.
+  destruct a as [a1 o1 r1], b as [a2 o2 r2]. unfold atom_eqb. simpl. intros H.
+  apply andb_prop in H. destruct H as [H H3]. apply andb_prop in H. destruct H as [H1 H2].
+  apply Nat.eqb_eq in H1. subst.
+  assert (o1 = o2) by (destruct o1, o2; simpl in H2; congruence). subst.
+  destruct r1, r2; simpl in H3; try discriminate.
+  - apply Z.eqb_eq in H3. subst. reflexivity.
+  - apply Nat.eqb_eq in H3. subst. reflexivity.
+Qed.
+Lemma tree_eqb_eq a : forall b, tree_eqb a b = true -> a = b.
+Proof.
+  induction a as [i cs c|i s l IHl r IHr]; intros [j ds d|j s' l' r']; simpl; intros H; try discriminate.
+  - apply andb_prop in H. destruct H as [H H3]. apply andb_prop in H. destruct H as [H1 H2].
+    apply Nat.eqb_eq in H1. apply (list_eqb_eq _ atom_eqb_eq) in H2.
+    apply (list_eqb_eq _ (fun x y => proj1 (Nat.eqb_eq x y))) in H3. subst. reflexivity.
+  - apply andb_prop in H. destruct H as [H H4]. apply andb_prop in H. destruct H as [H H3].
+    apply andb_prop in H. destruct H as [H1 H2]. apply Nat.eqb_eq in H1.
+    assert (s = s') by (destruct s, s'; simpl in H2; congruence).
+    apply IHl in H3. apply IHr in H4. subst. reflexivity.
+Qed.
+Lemma nodupb_nodup l : nodupb l = true -> NoDup l.
+Proof.
+  induction l as [|x l IH]; simpl; intros H; [constructor|].
+  apply andb_prop in H. destruct H as [H1 H2]. constructor; [|apply IH; exact H2].
+  intro Hin. apply negb_true_iff in H1. unfold memb in H1.
+  assert (existsb (Nat.eqb x) l = true) by (apply existsb_exists; exists x; split; [exact Hin|apply Nat.eqb_refl]).
+  congruence.
+Qed.
+Lemma pe_erase t e : pe (erase t) e = pe t e.
+Proof.
+  induction t as [i cs c|i s l IHl r IHr]; simpl; [reflexivity|]. rewrite IHl, IHr. reflexivity.
+Qed.
+Lemma nextfree_erase t : nextfree (erase t) = nextfree t.
+Proof.
+  induction t as [i cs c|i s l IHl r IHr]; simpl; [reflexivity|]. rewrite IHl, IHr. reflexivity.
+Qed.
+
+(* what Gb says *)
+Lemma Gb_spec prog : Gb prog = true ->
+  exists h t, build prog = Some h /\ reify h = Some t /\ erase t = tree_of prog /\ NoDup (ids t).
+Proof.
+  unfold Gb. destruct (build prog) as [h|] eqn:Eb; [|discriminate]. destruct (reify h) as [t|] eqn:Er; [|discriminate].
+  intros H. apply andb_prop in H. destruct H as [H1 H2]. exists h, t. split; [reflexivity|]. split; [exact Er|].
+  split; [apply tree_eqb_eq; exact H1|apply nodupb_nodup; exact H2].
+Qed.
+
+Lemma singles_rows t (prog : rule) : erase t = tree_of prog -> has_next prog = false -> forall l,
+  singles (flat_map (rows1 t) l)
+  = Some (flat_map (fun ie => map (fun tg => (tg, fst ie)) (rdr1 prog (snd ie))) l).
+Proof.
+  intros He Hn. induction l as [|[i e] l IH]; [reflexivity|].
+  simpl flat_map. destruct (pe_tree_of prog e Hn) as [_ [Hr Hl]].
+  rewrite <- He, pe_erase in Hr. unfold rows1 in *. simpl snd. simpl fst.
+  destruct (pe t e) as [f c]. simpl in Hr. destruct f.
+  - rewrite Hr. cbn [app map]. exact IH.
+  - rewrite Hr in *. destruct c as [|x [|y c]]; simpl in Hl; try lia.
+    + cbn [app map]. exact IH.
+    + cbn [app map singles single fst snd]. rewrite IH. reflexivity.
+Qed.
+
+(* C08 on the fragment: the model's run yields exactly the Spec's instances, each built from its own element *)
+Theorem rules_ok prog : Fb prog = true -> forall W,
+  exists rows, model prog W = Some rows /\ singles rows = Some (rdr prog W).
+Proof.
+  unfold Fb. intros H W. apply andb_prop in H. destruct H as [HG Hn]. apply negb_true_iff in Hn.
+  destruct (Gb_spec prog HG) as [h [t [Hb [Hr [He Hnd]]]]].
+  unfold model. rewrite Hb, Hr. eexists. split; [reflexivity|].
+  assert (Hnf : nextfree t = true).
+  { rewrite <- nextfree_erase, He. apply (pe_tree_of prog (0, 0)%Z Hn). }
+  rewrite (run_nextfree W t Hnf Hnd). unfold rdr. apply singles_rows; assumption.
+Qed.
+
+Lemma mseteqb_refl l : mseteqb l l = true.
+Proof.
+  induction l as [|x l IH]; [reflexivity|]. simpl. unfold pair_eqb. rewrite !Nat.eqb_refl. simpl. exact IH.
+Qed.
+Corollary rules_agree prog : Fb prog = true -> forall W, agrees prog W = true.
+Proof.
+  intros H W. destruct (rules_ok prog H W) as [rows [Hm Hs]]. unfold agrees. rewrite Hm, Hs. apply mseteqb_refl.
+Qed.
+
+(* ---- every written branch is a leaf of the intended tree ---- *)
+Fixpoint leaves (t : tree) : list (list atom * list nat) :=
+  match t with Leaf _ cs c => [(cs, c)] | Node _ _ l r => leaves l ++ leaves r end.
+Definition oleaves (a : option tree) := match a with Some t => leaves t | None => [] end.
+Definition leaf_of (r : rule) := (r_conds r, tag_list (r_tag r)).
+
+Lemma leaves_erase t : leaves (erase t) = leaves t.
+Proof. induction t as [|i s l IHl r IHr]; simpl; [reflexivity|]. rewrite IHl, IHr. reflexivity. Qed.
+
+Lemma tlevel_leaves r : forall k a,
+  incl (oleaves a) (leaves (tlevel k r a)) /\
+  forall q, In q (rules_of r) -> In (leaf_of q) (leaves (tlevel k r a)).
+Proof.
+  induction r as [cs tg body IH] using rule_ind'. intros k a.
+  assert (Hexc : forall a0,
+     incl (oleaves a0) (oleaves ((fix rf (l : list (kind * rule)) (a : option tree) {struct l} : option tree :=
+               match l with
+               | [] => a
+               | (KRef, q) :: l' => rf l' (Some (tlevel KAlt q a))
+               | _ :: l' => rf l' a
+               end) body a0)) /\
+     forall k0 q0 q, In (k0, q0) body -> k0 = KRef -> In q (rules_of q0) ->
+        In (leaf_of q) (oleaves ((fix rf (l : list (kind * rule)) (a : option tree) {struct l} : option tree :=
+               match l with
+               | [] => a
+               | (KRef, q) :: l' => rf l' (Some (tlevel KAlt q a))
+               | _ :: l' => rf l' a
+               end) body a0))).
+  { induction body as [|[k0 q0] body IHb]; intros a0.
+    - split; [apply incl_refl|intros ? ? ? []].
+    - inversion IH as [|? ? Hq Hrest]; subst. specialize (IHb Hrest). simpl in Hq.
+      destruct k0.
+      + destruct (IHb (Some (tlevel KAlt q0 a0))) as [I1 I2]. destruct (Hq KAlt a0) as [Q1 Q2]. split.
+        * intros x Hx. apply I1. simpl. apply Q1. exact Hx.
+        * intros k1 q1 q [E|Hin] Hk Hq1.
+          -- inversion E; subst. apply I1. simpl. apply Q2. exact Hq1.
+          -- eapply I2; eauto.
+      + destruct (IHb a0) as [I1 I2]. split; [exact I1|].
+        intros k1 q1 q [E|Hin] Hk Hq1; [inversion E; subst; discriminate|eapply I2; eauto].
+      + destruct (IHb a0) as [I1 I2]. split; [exact I1|].
+        intros k1 q1 q [E|Hin] Hk Hq1; [inversion E; subst; discriminate|eapply I2; eauto]. }
+  assert (Hsib : forall t0,
+     incl (leaves t0) (leaves ((fix sib (l : list (kind * rule)) (t : tree) {struct l} : tree :=
+               match l with
+               | [] => t
+               | (KRef, _) :: l' => sib l' t
+               | (k', q) :: l' => sib l' (tlevel k' q (Some t))
+               end) body t0)) /\
+     forall k0 q0 q, In (k0, q0) body -> k0 <> KRef -> In q (rules_of q0) ->
+        In (leaf_of q) (leaves ((fix sib (l : list (kind * rule)) (t : tree) {struct l} : tree :=
+               match l with
+               | [] => t
+               | (KRef, _) :: l' => sib l' t
+               | (k', q) :: l' => sib l' (tlevel k' q (Some t))
+               end) body t0))).
+  { clear Hexc. induction body as [|[k0 q0] body IHb]; intros t0.
+    - split; [apply incl_refl|intros ? ? ? []].
+    - inversion IH as [|? ? Hq Hrest]; subst. specialize (IHb Hrest). simpl in Hq.
+      destruct k0.
+      + destruct (IHb t0) as [I1 I2]. split; [exact I1|].
+        intros k1 q1 q [E|Hin] Hk Hq1; [inversion E; subst; congruence|eapply I2; eauto].
+      + destruct (IHb (tlevel KAlt q0 (Some t0))) as [I1 I2]. destruct (Hq KAlt (Some t0)) as [Q1 Q2]. split.
+        * intros x Hx. apply I1. apply Q1. exact Hx.
+        * intros k1 q1 q [E|Hin] Hk Hq1.
+          -- inversion E; subst. apply I1. apply Q2. exact Hq1.
+          -- eapply I2; eauto.
+      + destruct (IHb (tlevel KNext q0 (Some t0))) as [I1 I2]. destruct (Hq KNext (Some t0)) as [Q1 Q2]. split.
+        * intros x Hx. apply I1. apply Q1. exact Hx.
+        * intros k1 q1 q [E|Hin] Hk Hq1.
+          -- inversion E; subst. apply I1. apply Q2. exact Hq1.
+          -- eapply I2; eauto. }
+  cbn [tlevel].
+  destruct (Hexc None) as [_ E2]. clear Hexc.
+  set (exc_t := (fix rf (l : list (kind * rule)) (a : option tree) {struct l} : option tree := _) body None) in *.
+  set (me := match exc_t with None => Leaf 0 cs (tag_list tg) | Some x => Node 0 SExc (Leaf 0 cs (tag_list tg)) x end).
+  set (t0 := match a with None => me | Some a0 => Node 0 (sel_of k) a0 me end).
+  destruct (Hsib t0) as [S1 S2]. clear Hsib.
+  assert (Hme_in : incl (leaves me) (leaves t0)).
+  { unfold t0. destruct a; simpl; [apply incl_appr|]; apply incl_refl. }
+  assert (Hleaf : In (cs, tag_list tg) (leaves me)).
+  { unfold me. destruct exc_t; simpl; auto. }
+  split.
+  - intros x Hx. apply S1. unfold t0. destruct a; simpl in *; [apply in_or_app; auto|destruct Hx].
+  - intros q Hq. simpl in Hq. destruct Hq as [<-|Hq].
+    + apply S1, Hme_in, Hleaf.
+    + (* q is below some body element *)
+      assert (Hex : exists k0 q0, In (k0, q0) body /\ In q (rules_of q0)).
+      { clear - Hq. induction body as [|[k0 q0] body IHb]; [destruct Hq|].
+        apply in_app_or in Hq. destruct Hq as [Hq|Hq].
+        - exists k0, q0. split; [left; reflexivity|exact Hq].
+        - destruct (IHb Hq) as [k1 [q1 [H1 H2]]]. exists k1, q1. split; [right; exact H1|exact H2]. }
+      destruct Hex as [k0 [q0 [Hin Hq0]]].
+      destruct k0.
+      * apply S1, Hme_in. specialize (E2 KRef q0 q Hin eq_refl Hq0).
+        unfold me. destruct exc_t; simpl in *; [right; exact E2|destruct E2].
+      * eapply S2; eauto. discriminate.
+      * eapply S2; eauto. discriminate.
+Qed.
+
+Theorem no_branch_ignored prog : Gb prog = true ->
+  exists h t, build prog = Some h /\ reify h = Some t /\
+              forall q, In q (rules_of prog) -> In (leaf_of q) (leaves t).
+Proof.
+  intros HG. destruct (Gb_spec prog HG) as [h [t [Hb [Hr [He _]]]]]. exists h, t. split; [exact Hb|]. split; [exact Hr|].
+  intros q Hq. rewrite <- leaves_erase, He. apply (tlevel_leaves prog KAlt None). exact Hq.
+Qed.
+
+(* ---- the documented shapes are in the fragment, whatever their conditions and conclusions ---- *)
+Definition built (prog : rule) : option tree :=
+  match build prog with Some h => reify h | None => None end.
+Lemma atom_eqb_refl a : atom_eqb a a = true.
+Proof.
+  destruct a as [a o r]. unfold atom_eqb. simpl. rewrite Nat.eqb_refl.
+  assert (cmp_eqb o o = true) by (destruct o; reflexivity).
+  assert (rhs_eqb r r = true) by (destruct r; simpl; [apply Z.eqb_refl|apply Nat.eqb_refl]).
+  rewrite H, H0. reflexivity.
+Qed.
+Lemma list_eqb_refl {A} (eqb : A -> A -> bool) (Hr : forall x, eqb x x = true) l : list_eqb eqb l l = true.
+Proof. induction l as [|x l IH]; simpl; [reflexivity|]. rewrite Hr, IH. reflexivity. Qed.
+Lemma tree_eqb_refl t : tree_eqb t t = true.
+Proof.
+  induction t as [i cs c|i s l IHl r IHr]; simpl.
+  - rewrite Nat.eqb_refl, (list_eqb_refl _ atom_eqb_refl), (list_eqb_refl _ Nat.eqb_refl). reflexivity.
+  - rewrite Nat.eqb_refl, IHl, IHr. destruct s; reflexivity.
+Qed.
+Lemma Gb_intro prog t : built prog = Some t -> erase t = tree_of prog -> nodupb (ids t) = true -> Gb prog = true.
+Proof.
+  unfold built, Gb. destruct (build prog) as [h|]; [|discriminate]. intros -> <- ->.
+  rewrite tree_eqb_refl. reflexivity.
+Qed.
+
+Ltac shape := intros; eapply Gb_intro; [cbv; reflexivity|cbv; reflexivity|reflexivity].
+
+Theorem documented_shapes : forall c0 t0 c1 t1 c2 t2 c3 t3,
+  Gb (Rule c0 t0 []) = true /\
+  Gb (Rule c0 t0 [(KRef, Rule c1 t1 [])]) = true /\
+  Gb (Rule c0 t0 [(KAlt, Rule c1 t1 [])]) = true /\
+  Gb (Rule c0 t0 [(KAlt, Rule c1 t1 []); (KAlt, Rule c2 t2 [])]) = true /\
+  Gb (Rule c0 t0 [(KRef, Rule c1 t1 []); (KAlt, Rule c2 t2 [])]) = true /\
+  Gb (Rule c0 t0 [(KRef, Rule c1 t1 [(KAlt, Rule c2 t2 [])])]) = true /\
+  Gb (Rule c0 t0 [(KRef, Rule c1 t1 [(KAlt, Rule c2 t2 []); (KAlt, Rule c3 t3 [])])]) = true /\
+  Gb (Rule c0 t0 [(KRef, Rule c1 t1 [(KAlt, Rule c2 t2 [])]); (KAlt, Rule c3 t3 [])]) = true /\
+  Gb (Rule c0 t0 [(KRef, Rule c1 t1 [(KRef, Rule c2 t2 []); (KAlt, Rule c3 t3 [])])]) = true /\
+  Gb (Rule c0 t0 [(KAlt, Rule c1 t1 [(KAlt, Rule c2 t2 [(KAlt, Rule c3 t3 [])])])]) = true /\
+  Gb (Rule c0 t0 [(KNext, Rule c1 t1 [])]) = true.
+Proof. intros. destruct t0, t1, t2, t3; repeat split; shape. Qed.
+
+(* non-vacuity: a program of the fragment with a refinement carrying an alternative, followed by an alternative *)
+Definition ex_prog : rule :=
+  Rule (cnd CLe 5) (Some 0)
+       [(KRef, Rule (cnd CGe 2) (Some 1) [(KAlt, leafr CEq 1 2)]); (KAlt, leafr CEq 7 3)].
+Lemma ex_nonvacuous :
+  Fb ex_prog = true /\
+  rdr ex_prog W8 = [(0, 0); (2, 1); (1, 2); (1, 3); (1, 4); (1, 5); (3, 7)] /\
+  model_tags ex_prog W8 = rdr ex_prog W8.
+Proof. repeat split; vm_compute; reflexivity. Qed.
